@@ -310,8 +310,33 @@ theorem admissible_renameRespell (σ kwMap wsMap : Text → Text)
           · exact Or.inr ⟨ctxBlocked_of_nameOk h.1, ctxBlocked_of_nameOk h.2⟩
         · exact Or.inl (CtxEq.refl _ _)
   · intro tt v hkw hf
-    simp only [freeTT, Bool.or_eq_false_iff] at hf
-    simp [renameRespell, hkw, hf.1.1, hf.1.2, hf.2]
+    rcases (freeTT_false_iff tt).1 hf with rfl | rfl | rfl | rfl <;> rfl
+
+/-- re-spell every free leaf: keywords by `kwMap`, whitespace by `wsMap`, every other free type (names, literals,
+built-ins, comparison operators, comments, …) by `σ tt` -/
+def valueRespell (σ : TType → Text → Text) (kwMap wsMap : Text → Text) (tt : TType) (v : Text) : Text :=
+  if TType.isIn tt T.Keyword then kwMap v
+  else if TType.isIn tt T.Whitespace then wsMap v
+  else if freeTT tt then σ tt v
+  else v
+
+/-- **names, literals and all other free values + keyword case + whitespace values** -/
+theorem admissible_valueRespell (σ : TType → Text → Text) (kwMap wsMap : Text → Text)
+    (hσ : ∀ tt v, σ tt v = v ∨ (NameOk (σ tt v) ∧ NameOk v)) (hk : ∀ v, CtxEq kwNorm (kwMap v) v)
+    (hw : ∀ v, CtxEq kwNorm (wsMap v) v) : AdmissibleNames kwNorm (valueRespell σ kwMap wsMap) := by
+  apply admissibleNames_of_leaf
+  · intro tt v hkw; simp only [valueRespell, hkw, if_true]; exact hk v
+  · intro tt v hf
+    simp only [valueRespell, hf, if_true]
+    split
+    · exact Or.inl (hk v)
+    · split
+      · exact Or.inl (hw v)
+      · rcases hσ tt v with h | h
+        · rw [h]; exact Or.inl (CtxEq.refl _ _)
+        · exact Or.inr ⟨ctxBlocked_of_nameOk h.1, ctxBlocked_of_nameOk h.2⟩
+  · intro tt v hkw hf
+    rcases (freeTT_false_iff tt).1 hf with rfl | rfl | rfl | rfl <;> rfl
 
 /-- quoted names are always blocked (`"` and the back-tick are not letters) -/
 theorem blocked_of_dquote (body : Text) : Blocked ([34] ++ body ++ [34]) :=
